@@ -47,4 +47,21 @@ PROPS = {
         "level_note": "Partial: which level each consumer in RootApp.Run reads (template, schema settings, formatter, force-file-write) is not covered by these theorems; the unchanged tree reads formatter from the top level and template/template-schema/require-template-schema-exists/force-file-write from the package level (known findings C08-K1..K4, replayed through the CLI). koanf/mapstructure/yaml.v3 are modelled, not verified.",
         "technique": "Lean 4 proof (refinement to first-set-value over a field table regenerated from config.go; induction over nested maps) + differential correspondence against config.NewRootConfig",
     },
+    "C07": {
+        "needs": ["mockery"],
+        "extract": True,
+        "harness": "H-run: the mockery CLI with a probe template on generated modules vs Mockery.Config.selected ∘ initializeFull",
+        "rule": "generated modules over four package-tree shapes (flat, nested, with empty and test-only directories) whose files mix interface literals, empty interfaces, generic interfaces, named instantiations of generic interfaces and structs, structs, func types, aliases, `type X Y`, function-local interface types (also shadowing package-level names) and blank-named types; configurations drawing all / listed interfaces (null, config, 1-3 configs entries, occasionally a missing name) / include / exclude expressions (valid, empty, invalid) / recursive / exclude-subpkg-regex at top and package level, nested recursive roots, distinct template-data tags per level; a case is non-trivial iff distinct and at least one mock was generated or the run failed",
+        "trusted": COMMON_TRUST + [
+            "regexp.MatchString is a parameter of the model (the harness passes its answers for every expression x name / package path of the case)",
+            "`go list p/...` is a parameter (sub-packages with non-test Go files, as laid out by the harness)",
+            "go/types facts per declaration kind (Named / Alias / interface-ness) are inputs computed by the harness for the source it emits",
+            "text/template rendering of the probe template",
+        ],
+        "assumptions": ["package order of the run is not observed (results compared as sorted multisets)"],
+        "level_text": "The selection predicate stated outright and proved equal to ShouldGenerateInterface's model for every matcher (incl. the error cases and the complete 2x2x3x3 decision table), discovery restricted to package-level named interface types, one mock per configs entry, mock_iff (a mock exists iff discovered, selected, and an entry), never_unconfigured, and for recursion: exactly the non-excluded sub-packages are added, discovered ones inherit the recursive package's settings, the nearest (deepest) recursive ancestor wins deterministically. Tied to the real CLI by probe-template runs.",
+        "level_note": "Partial: go/packages discovery, go/types classification and the regexp engine are parameters of the model. The declaration kinds covered are the ones the generator emits.",
+        "technique": "Lean 4 proof (decision logic stated outright; induction over package/declaration lists and over the injection fold) + differential correspondence against the mockery CLI with a probe template",
+        "timeout": 3600,
+    },
 }
